@@ -29,7 +29,7 @@ TRUSTED = ["models: Audio/KeepDelete.v keep_delete, read_at_times, silence; Tier
            "sine values round(amp*sin(2*pi*f*i/rate)) are recomputed in the harness with math.sin (runtime float), only the count is proved"]
 ASSUMPTIONS = ["times are multiples of a quarter sample; for the non-dyadic rates only on-sample and quarter-sample boundaries are used "
                "so that binary64 rounding of time*rate cannot change the nearest sample index"]
-RATES = [8, 16, 8000, 44100]
+RATES = [8, 16, 8000, 44100, 1, 48000, 22050]
 
 
 def _intervals(rng, nticks, maxn, on_sample_only, allow_half):
